@@ -1,7 +1,13 @@
 import Canopy.Proof.DexArith
 import Canopy.Proof.DexInv
+import Canopy.Proof.DexPoints
+import Canopy.Proof.DexHold
 /-!
 # C20 — escrow, order-book and AMM accounting is exact
+
+Part 1 AMM arithmetic (`swap_safe`, `withdraw_le_share`, deposit points) · Part 2 order book and escrow
+(`escrow_eq` along every run, `close_exact_once`) · Part 3 liquidity points (`points_sum_*`, per function) ·
+Part 4 holding pool (`holding_*`, per function, partial).
 
 Part 1: the AMM arithmetic. `Canopy.Gen.Dex.SafeComputeDY`, `SafeMulDiv`, `SqrtProductUint64` are the
 definitions REGENERATED from `fsm/dex.go` / `lib/util.go` on every run (`big.Int` → `Nat`, `.Uint64()` →
@@ -178,6 +184,13 @@ theorem handlers_pinned : handlerDigests = [
   ("CopyOrders", "6bb4dd8461d8adc3"),
   ("HashKey", "1545ec2bd458e28e")] := by decide
 
+/-- the literals the model and the frame argument use are the values in `fsm/key.go` / `lib/config.go` today:
+`MaxChainId`, the reserved ids of `checkChainId`, and the three pool-id addends (escrow ids start at 65535, above
+every holding and liquidity id of a valid chain) -/
+theorem constants_pinned :
+    MaxChainId = maxChainId ∧ UnknownChainId = 0 ∧ DAOPoolID = 131071 ∧
+    HoldingPoolAddend = 16383 ∧ LiquidityPoolAddend = 32767 ∧ EscrowPoolAddend = 65535 := by decide
+
 /-- **escrow_eq.** Along EVERY sequence of operations, for every chain: escrow pool = Σ amounts of the open sell
 orders of that chain. Side conditions (`Admissible`, each checked in the state the operation is applied to): a
 created order's id is fresh; the escrow balance stays below 2^64 on create/edit-increase (`PoolAdd` does not guard);
@@ -289,5 +302,99 @@ theorem duplicate_close_is_noop {s : State} {chain : Nat} {id : Bytes} (hi : SIn
       simp only [deleteOrder]; rw [ho2]
       exact AM.get?_del_self _ _ hi.ordersNodup
     simp [orSkip, (gone_finds_nothing hnone).1]
+
+/-!
+# Part 3 — liquidity points: Σ points = total
+
+`PointsOk p` : the points table of pool `p` sums to `p.total` (a `uint64`). Every function of the model that
+writes the table keeps it: `AddPoints`, `handleBatchWithdraw` (also used for the forced eviction of the lowest
+holder), `handleBatchDeposit` with `handleCappedBatchDeposit` (incumbents, ranking, free slot, eviction,
+rejection), in both the local and the remote role. The liveness fallback copies the counter chain's table
+verbatim (`SetPoolPoints(remote.PoolPoints, remote.TotalPoolPoints)`), so it keeps the identity exactly when the
+remote table has it.
+
+This is `points_sum` at the level of the table-writing functions. NOT proved: the composition into an invariant
+of `run` (that no other operation writes the table, and that stored withdrawals carry a percent ≤ 100); the Go
+oracle checks Σ points = total on the real state after every operation instead.
+-/
+
+/-- `Pool.AddPoints` keeps Σ points = total (and does not touch the amount) -/
+theorem points_sum_addPoints {p p' : Pool} {a : Bytes} {n : Nat} (hp : PointsOk p) (hn : n < U64)
+    (h : addPoints p a n = .ok p') : PointsOk p' := (addPoints_ok hp hn h).1
+
+/-- `handleBatchWithdraw` (percent ≤ 100, as `checkPercent` / `DexBatch.CheckBasic` guarantee): points are burnt from
+the holder and from the total by the same amount; zero-point holders are dropped -/
+theorem points_sum_withdraw {s : State} {ws : List Withdraw} {c x y : Nat} {isLocal : Bool} {p0 : Option Pool}
+    {persist : Bool} {l : Ledger} (hw : ∀ w ∈ ws, w.percent ≤ 100)
+    (hp : PointsOk (p0.getD (getPool s (liquidityId c))))
+    (h : batchWithdraw s ws c x y isLocal p0 persist = .ok l) : PointsOk l.p :=
+  batchWithdraw_points hw hp h
+
+/-- `handleBatchDeposit` incl. the provider cap (`MaxLiquidityProviders`), evictions and rejections -/
+theorem points_sum_deposit {s : State} {b : Batch} {c x y : Nat} {isLocal : Bool} {l : Ledger}
+    (hp : PointsOk (getPool s (liquidityId c))) (h : batchDeposit s b c x y isLocal = .ok l) : PointsOk l.p :=
+  batchDeposit_points hp h
+
+/-- the percent bound is necessary: a withdrawal of 150% (which `CheckBasic` rejects) would burn more
+points than the holder has and wrap both counters -/
+theorem points_wrap_above_100_percent :
+    (match batchWithdraw {} [{ percent := 150, addr := addrA, id := [] }] 2 1000 1000 false
+        (some { amount := 1000, points := [(deadAddr, 10), (addrA, 10)], total := 20 }) false with
+     | .ok l => decide (ptsSum l.p.points ≠ l.p.total)
+     | .error _ => false) = true := by decide
+
+/-- non-vacuity: a 50% withdrawal of a holder of 10 of 20 points burns 5 points and pays 250 of a 1000 reserve -/
+example :
+    (match batchWithdraw {} [{ percent := 50, addr := addrA, id := [] }] 2 1000 1000 false
+        (some { amount := 1000, points := [(deadAddr, 10), (addrA, 10)], total := 20 }) false with
+     | .ok l => decide (l.p.points = [(deadAddr, 10), (addrA, 5)] ∧ l.p.total = 15 ∧ l.p.amount = 750 ∧ balance l.s addrA = 250)
+     | .error _ => false) = true := by decide
+
+/-!
+# Part 4 — the holding pool (partial)
+
+Full statement (`holding_eq`): for every chain, after every operation,
+`pool(chain + HoldingPoolAddend) = Σ amounts of the orders and deposits in next(chain) ∪ locked(chain)`.
+
+Proved here (`holding_eq_partial`), per function, with `holdAmt s c` the holding pool's balance and
+`Batch.pending` the Σ of a batch's order and deposit amounts:
+* in — a DEX limit order / liquidity deposit moves exactly its amount into the holding pool and adds exactly that
+  amount to the pending Σ of the next batch (the locked batch is untouched);
+* out — applying the receipts of our locked batch debits the holding pool by exactly Σ of its orders
+  (`HandleOrderReceipts`, success and failure alike); the liveness fallback debits it by exactly the whole
+  pending Σ of the locked batch (orders and deposits) and drops the batch.
+
+NOT proved: the deposit leg of the receipts phase (`handleBatchDeposit` with `local = true` debits each accepted or
+refused deposit, but returns early — debiting nothing — when a ledger is zero; the identity survives only because
+`HandleDexBatchOrders` then fails the whole operation), rotation/inclusion (pure moves between next and locked),
+and the composition into an invariant of `run`. The Go oracle evaluates the full identity on the real state after
+every operation of every case instead.
+-/
+
+/-- in: `HandleMessageDexLimitOrder` -/
+theorem holding_in_limit {s s' : State} {c : Nat} {o : LimitOrder} (h : dexLimitOrder s c o = .ok s')
+    (hfit : holdAmt s c + o.amount < U64) :
+    holdAmt s' c = holdAmt s c + o.amount ∧
+    (getBatch s' c false).pending = (getBatch s c false).pending + o.amount ∧ s'.locked = s.locked :=
+  limit_holding h hfit
+
+/-- in: `HandleMessageDexLiquidityDeposit` -/
+theorem holding_in_deposit {s s' : State} {c : Nat} {d : Deposit} (h : dexDeposit s c d = .ok s')
+    (hfit : holdAmt s c + d.amount < U64) :
+    holdAmt s' c = holdAmt s c + d.amount ∧
+    (getBatch s' c false).pending = (getBatch s c false).pending + d.amount ∧ s'.locked = s.locked :=
+  deposit_holding h hfit
+
+/-- out: `HandleOrderReceipts` debits exactly Σ amounts of our locked orders, whatever the receipts say -/
+theorem holding_out_receipts (c : Nat) (hc : c ≤ maxChainId) (os : List LimitOrder) (rs : List Nat) (s : State) (x y : Nat)
+    (r : State × Nat × Nat) (h : orderReceipts c os rs s x y = .ok r) :
+    holdAmt r.1 c + (os.map (·.amount)).sum = holdAmt s c :=
+  orderReceipts_holding c hc os rs s x y r h
+
+/-- out: `HandleLivenessFallback` refunds exactly the pending Σ of our locked batch and drops the batch -/
+theorem holding_out_fallback {s s' : State} {c : Nat} {lb remote : Batch} (hc : c ≤ maxChainId)
+    (h : livenessFallback s c lb remote = .ok s') :
+    holdAmt s' c + lb.pending = holdAmt s c ∧ AM.get? s'.locked c = some {} :=
+  livenessFallback_holding hc h
 
 end Canopy.C20
